@@ -166,6 +166,23 @@ def forwarded(m, w, k=0, leader=N1, via=N2):
     return w
 
 
+def forwarded_stale(m, w, leader=N1, via=N2, new=N3, beats=0):
+    """A follower forwarded a command; the leader accepted it and its answer is still in flight when
+    another node is elected and the follower learns of it (its pending request has failed with
+    LEADER_CHANGED). What the old leader sent stays in flight: the explorer decides when the stale
+    answer arrives relative to the follower's next requests."""
+    w = forwarded(m, w, 0, leader, via)
+    w = m.do(w, ('D', via, leader), ('Z', leader))
+    if not w.queue(leader, via):
+        m.seed_shape_ok = False
+    w = elect(m, w, new, only=[new, via])      # the follower holds the new leader's no-op, not yet committed
+    if beats:
+        w = beat(m, w, new, only=[new, via], times=beats)     # ... or has applied it already
+    if m.summary(w, via).leader != new:
+        m.seed_shape_ok = False
+    return w
+
+
 def fig8(m, w):
     """Raft figure 8 prefix on 3 nodes. a=n1 led term 1 and holds X (index 3) that nobody else has;
     c=n3 led term 2 and holds its no-op (3) and Y (4) that nobody else has and is a follower again;
@@ -577,7 +594,7 @@ def candidates(m, w, who=(N1, N2)):
     return w
 
 
-SEEDS = dict(reelected_cache3=reelected_cache3, deposed_obs=deposed_obs, voted=voted, stalled_old_code=stalled_old_code, reelected5=reelected5, stale_reset5=stale_reset5, stale_vote5=stale_vote5, stale_snapshot=stale_snapshot, ahead_full=ahead_full, fig8_full=fig8_full, candidates=candidates, battery_lagsnap=battery_lagsnap, ahead=ahead, lagging_newleader=lagging_newleader, m_deposed=m_deposed, split=split, version_snap=version_snap, fresh=fresh, steady=steady, lagging=lagging, lagging_snap=lagging_snap, deposed=deposed,
+SEEDS = dict(forwarded_stale=forwarded_stale, reelected_cache3=reelected_cache3, deposed_obs=deposed_obs, voted=voted, stalled_old_code=stalled_old_code, reelected5=reelected5, stale_reset5=stale_reset5, stale_vote5=stale_vote5, stale_snapshot=stale_snapshot, ahead_full=ahead_full, fig8_full=fig8_full, candidates=candidates, battery_lagsnap=battery_lagsnap, ahead=ahead, lagging_newleader=lagging_newleader, m_deposed=m_deposed, split=split, version_snap=version_snap, fresh=fresh, steady=steady, lagging=lagging, lagging_snap=lagging_snap, deposed=deposed,
              deposed_snap=deposed_snap, deposed_twice=deposed_twice, pending=pending, reconnect_pipeline=reconnect_pipeline,
              forwarded=forwarded, fig8=fig8)
 
